@@ -11,7 +11,8 @@ vars == <<fp, pp, mp, flag, gen, iter>>
 
 GenLists == { <<>>, <<"A">>, <<"B">>, <<"C">>, <<"E">>, <<"D">>, <<"E", "A">>, <<"A", "B">>, <<"B", "A">>, <<"A", "C">>, <<"C", "A">>, <<"A", "D">>, <<"D", "E">>,
               <<"A", "B", "C">>, <<"C", "B", "A">>, <<"A", "B", "C", "D", "E">>, <<"E", "D", "C", "B", "A">>,
-              <<"F">>, <<"G">>, <<"H">>, <<"G", "H">>, <<"H", "G">>, <<"F", "H", "G", "A">> }
+              <<"F">>, <<"G">>, <<"H">>, <<"G", "H">>, <<"H", "G">>, <<"F", "H", "G", "A">>,
+              <<"X">>, <<"X", "C">>, <<"C", "X">>, <<"X", "A">>, <<"I">>, <<"I", "A">> }
 
 Init == fp \in FeatureParams /\ pp \in PathsParams /\ mp \in MParams /\ flag \in FlagParams /\ gen \in GenLists /\ iter \in {1, 2}
 Next == UNCHANGED vars
